@@ -193,7 +193,14 @@ where
                 | SyntaxKind::MatchPattern
                 | SyntaxKind::ConstructorPattern
                 | SyntaxKind::TypeDecl
-                | SyntaxKind::VariantDef => print_leaf_children(children, ctx, allocator),
+                | SyntaxKind::VariantDef => {
+                    // these kinds have no layout of their own yet: keep the tokens apart
+                    let docs: Vec<_> = children
+                        .iter()
+                        .map(|&child| cst_to_doc(child, ctx, allocator))
+                        .collect();
+                    allocator.intersperse(docs, allocator.space())
+                }
                 SyntaxKind::Error => allocator.text("/* error */"),
             }
         }
